@@ -157,7 +157,146 @@ fn nm_dispatch(op: &str, args: &[&str]) -> Option<Res> {
     }
 }
 
+// ---------------------------------------------------------------- primitive kernels of base/src/ring/div_rem.rs
+fn prim_kind(r: String) -> String {
+    // Rust's own arithmetic panics of the primitive operators (not dashu messages)
+    if r.contains("attempt_to_divide_by_zero") || r.contains("divisor_of_zero") {
+        "panic Undocumented(PrimDivideByZero)".to_string()
+    } else if r.contains("with_overflow") {
+        "panic Undocumented(PrimOverflow)".to_string()
+    } else {
+        r
+    }
+}
+
+fn hx128(v: i128) -> String {
+    if v < 0 {
+        format!("-{:x}", (v as i128).unsigned_abs())
+    } else {
+        format!("{:x}", v)
+    }
+}
+
+fn p_i129(s: &str) -> Result<(bool, u128), String> {
+    // sign + magnitude (u128::MAX needs more than i128)
+    let (neg, body) = match s.strip_prefix('-') {
+        Some(r) => (true, r),
+        None => (false, s),
+    };
+    let m = u128::from_str_radix(body, 16).map_err(|_| format!("bad-arg int {}", s))?;
+    Ok((neg, m))
+}
+
+macro_rules! prim_ty {
+    ($name:ident, $T:ty, $signed:expr) => {
+        fn $name(op: &str, a: (bool, u128), b: (bool, u128)) -> Option<String> {
+            use dashu_base::{DivEuclid, DivRem, DivRemAssign, DivRemEuclid, RemEuclid};
+            fn conv(x: (bool, u128)) -> Option<$T> {
+                if $signed {
+                    let v: i128 = if x.0 {
+                        if x.1 > (1u128 << 127) { return None; }
+                        (x.1 as i128).wrapping_neg()
+                    } else {
+                        if x.1 >= (1u128 << 127) { return None; }
+                        x.1 as i128
+                    };
+                    <$T>::try_from(v).ok()
+                } else {
+                    if x.0 && x.1 != 0 { return None; }
+                    <$T>::try_from(x.1).ok()
+                }
+            }
+            fn f(x: $T) -> String {
+                if $signed { hx128(x as i128) } else { format!("{:x}", x as u128) }
+            }
+            let a = conv(a)?;
+            let b = conv(b)?;
+            let r = match op {
+                "divrem" => run1(|| { let (q, r) = a.div_rem(b); format!("{} {}", f(q), f(r)) }),
+                "divremassign" => run1(|| { let mut x = a; let r = x.div_rem_assign(b); format!("{} {}", f(x), f(r)) }),
+                "diveuclid" => run1(|| f(DivEuclid::div_euclid(a, b))),
+                "remeuclid" => run1(|| f(RemEuclid::rem_euclid(a, b))),
+                "divremeuclid" => run1(|| { let (q, r) = a.div_rem_euclid(b); format!("{} {}", f(q), f(r)) }),
+                _ => return None,
+            };
+            Some(prim_kind(r))
+        }
+    };
+}
+prim_ty!(prim_u8, u8, false);
+prim_ty!(prim_u16, u16, false);
+prim_ty!(prim_u32, u32, false);
+prim_ty!(prim_u64, u64, false);
+prim_ty!(prim_u128, u128, false);
+prim_ty!(prim_usize, usize, false);
+prim_ty!(prim_i8, i8, true);
+prim_ty!(prim_i16, i16, true);
+prim_ty!(prim_i32, i32, true);
+prim_ty!(prim_i64, i64, true);
+prim_ty!(prim_i128, i128, true);
+prim_ty!(prim_isize, isize, true);
+
+fn prim_call(ty: &str, op: &str, a: (bool, u128), b: (bool, u128)) -> Option<String> {
+    match ty {
+        "u8" => prim_u8(op, a, b),
+        "u16" => prim_u16(op, a, b),
+        "u32" => prim_u32(op, a, b),
+        "u64" => prim_u64(op, a, b),
+        "u128" => prim_u128(op, a, b),
+        "usize" => prim_usize(op, a, b),
+        "i8" => prim_i8(op, a, b),
+        "i16" => prim_i16(op, a, b),
+        "i32" => prim_i32(op, a, b),
+        "i64" => prim_i64(op, a, b),
+        "i128" => prim_i128(op, a, b),
+        "isize" => prim_isize(op, a, b),
+        _ => None,
+    }
+}
+
+/// `p.<op> <ty> a b`, and `p.sweep <ty> <op> a`: all 256 values of b for one a of an 8-bit type
+fn prim_dispatch(op: &str, args: &[&str]) -> Option<Res> {
+    let sub = op.strip_prefix("p.")?;
+    Some((|| -> Res {
+        if sub == "sweep" {
+            let ty = arg(args, 0)?;
+            let o = arg(args, 1)?;
+            let a = p_i129(arg(args, 2)?)?;
+            let bs: Vec<(bool, u128)> = if ty == "i8" {
+                (-128i32..128).map(|v| (v < 0, v.unsigned_abs() as u128)).collect()
+            } else if ty == "u8" {
+                (0u128..256).map(|v| (false, v)).collect()
+            } else {
+                return Err("bad-arg sweep type".into());
+            };
+            let mut out = String::new();
+            let mut h: u128 = 0;
+            for b in bs {
+                let r = prim_call(ty, o, a, b).ok_or_else(|| "bad-arg prim".to_string())?;
+                for byte in r.bytes() {
+                    h = (h * 257 + byte as u128) % CK_MOD;
+                }
+                h = (h * 257 + 10) % CK_MOD;
+            }
+            out.push_str(&format!("{:x}", h));
+            Ok(out)
+        } else {
+            let ty = arg(args, 0)?;
+            let a = p_i129(arg(args, 1)?)?;
+            let b = p_i129(arg(args, 2)?)?;
+            let r = prim_call(ty, sub, a, b).ok_or_else(|| "bad-arg prim".to_string())?;
+            match r.strip_prefix("ok ") {
+                Some(v) => Ok(v.to_string()),
+                None => Err(r),
+            }
+        }
+    })())
+}
+
 pub fn dispatch(op: &str, args: &[&str]) -> Option<Res> {
+    if op.starts_with("p.") {
+        return prim_dispatch(op, args);
+    }
     if op.starts_with("nm.") {
         return nm_dispatch(op, args);
     }
